@@ -434,7 +434,7 @@ void vf_run(vf::Ctx& c)
     // three objects: x = c%3, y = (x+1+(c/3)%2)%3.  Prefix: object 0 -> alternative 2 (B), object 1 -> alternative 3 (C), object 2
     // stays A; shapes: target alternative A on (x=2,y=0), int on (x=0,y=1), C on (x=1,y=0)
     c03::run_pairs(c, {RawOp{0, 2, 0, 9}, RawOp{0, 3, 0, 16}}, {RawOp{0, 0, 1, 2}, RawOp{0, 1, 0x1F, 72}, RawOp{0, 3, 0x2E, 22}});
-    c03::run_histories(c, 12000, 120000, 30);
+    c03::run_histories(c, 10000, 120000, 30);
 }
 
 std::string vf_replay(std::string const& sub, std::string const& cs)
